@@ -315,3 +315,74 @@ def c08_failed_avp(prog):
             probs.append(f"raises {e!r}")
         out.append(GroundOb(f"C08.failedavp[{cls.__name__}]", not probs, "; ".join(probs)))
     return out
+
+
+def c15_lock_coverage(prog):
+    """C15.AT1: every write of PeerConnection._write_buffer in the package lies inside `with <conn>.write_lock`, either
+    lexically or because every call site of the enclosing helper does; exactly one I/O thread is created."""
+    import ast
+    out = []
+    writes = []      # (module, function qualname, lineno, locked lexically?)
+    helpers = {}
+    for q, fi in prog.functions.items():
+        class V(ast.NodeVisitor):
+            def __init__(self):
+                self.lock = 0
+
+            def visit_With(self, n):
+                locked = any(isinstance(it.context_expr, ast.Attribute) and it.context_expr.attr == "write_lock"
+                             for it in n.items)
+                self.lock += locked
+                for ch in n.body:
+                    self.visit(ch)
+                self.lock -= locked
+
+            def visit_Attribute(self, n):
+                if n.attr == "_write_buffer" and isinstance(n.ctx, (ast.Store, ast.Del)):
+                    writes.append((q, n.lineno, self.lock > 0))
+                self.generic_visit(n)
+
+            def visit_AugAssign(self, n):
+                if isinstance(n.target, ast.Attribute) and n.target.attr == "_write_buffer":
+                    writes.append((q, n.lineno, self.lock > 0))
+                self.generic_visit(n.value)
+        V().visit(fi.node)
+    unlocked = [(q, ln) for q, ln, l in writes if not l and not q.endswith(".__init__")]
+    # helpers that write without holding the lock: all their call sites must hold it
+    probs = []
+    for q, ln in unlocked:
+        name = q.rsplit(".", 1)[-1]
+        sites = []
+        for q2, fi2 in prog.functions.items():
+            class C(ast.NodeVisitor):
+                def __init__(self):
+                    self.lock = 0
+
+                def visit_With(self, n):
+                    locked = any(isinstance(it.context_expr, ast.Attribute) and it.context_expr.attr == "write_lock"
+                                 for it in n.items)
+                    self.lock += locked
+                    for ch in n.body:
+                        self.visit(ch)
+                    self.lock -= locked
+
+                def visit_Call(self, n):
+                    if isinstance(n.func, ast.Attribute) and n.func.attr == name:
+                        sites.append((q2, n.lineno, self.lock > 0))
+                    self.generic_visit(n)
+            C().visit(fi2.node)
+        bad = [s for s in sites if not s[2]]
+        if bad or not sites:
+            probs.append(f"{q}:{ln} writes _write_buffer without the lock; unlocked call sites: {bad}")
+    out.append(GroundOb("C15.AT1[_write_buffer]", not probs, "; ".join(probs) or f"{len(writes)} writes, all under write_lock",
+                        backend="atomicity-ast", witness={"writes": writes}))
+    # a single I/O thread
+    n_threads = 0
+    for q, fi in prog.functions.items():
+        for n in ast.walk(fi.node):
+            if isinstance(n, ast.Call) and any(isinstance(kw.value, ast.Attribute) and kw.value.attr == "_handle_connections"
+                                               for kw in n.keywords if kw.arg == "target"):
+                n_threads += 1
+    out.append(GroundOb("C15.AT1[single-io-thread]", n_threads == 1, f"{n_threads} thread creation sites target _handle_connections",
+                        backend="atomicity-ast"))
+    return out
